@@ -280,7 +280,10 @@ def run_impl(fn, cases, timeout=5400, par=NPROC, hashseed='0', cwd=None):
         res = []
         for l in (o or '').split('\n'):
             if l.startswith('R '):
-                res.append(json.loads(l[2:]))
+                try:
+                    res.append(json.loads(l[2:]))
+                except ValueError:
+                    break       # a line truncated by a killed worker
         if len(res) < len(ch):
             tail = (e or '')[-2000:]
             res += [{'harness': 'worker-died', 'stderr': tail}] * (len(ch) - len(res))
